@@ -25,7 +25,10 @@ def load_specs():
 def _canon_scalar(w) -> str:
     if w[0] == "re":
         return f"re({_canon_scalar(w[1])})"
-    if w[0] in ("trace", "norm"):
+    if w[0] == "trace":
+        x = w[1]
+        return f"trace({TX.canon(TX.closed_trace(TX.tensor_term(x) if isinstance(x, TX.ATensor) else x))})"
+    if w[0] == "norm":
         x = w[1]
         return f"{w[0]}({TX.canon(TX.tensor_term(x) if isinstance(x, TX.ATensor) else x)})"
     return str(w)
@@ -104,7 +107,7 @@ def run_case(spec: Dict[str, Any]):
             pl = next((v for v in ex.env.values() if isinstance(v, TX.AProbList) and v.elem is not None), pl)
         got = _canon_scalar(pl.elem.what) if isinstance(pl, TX.AProbList) and pl.elem is not None else repr(pl)
         w = spec["expect_probs"]
-        want = f"re(trace({TX.canon(w[1][1])}))"
+        want = f"re(trace({TX.canon(TX.closed_trace(w[1][1]))}))"
         out.append((f"{case}:ensures:probabilities", "ensures", "discharged" if got == want else "failed", "" if got == want else f"probability of the generic operator is {got}; specified {want}"))
     return fn, out
 
